@@ -23,13 +23,21 @@ Definition to_setop (p : pyval) : option setop :=
   | _ => None
   end.
 
+(* every derived attribute, read again from the current state *)
+Definition attrs_of (n : net) : pyval :=
+  let w := width (nver n) in let v := nval n in let p := nplen n in
+  PList [PInt (net_ip v); PInt (net_network w v p); POpt PInt (net_broadcast (nver n) v p);
+         PInt (net_first w v p); PInt (net_last w v p); PInt (net_netmask w p);
+         PInt (net_hostmask w p); PInt (net_size w v p);
+         PPair (PInt (fst (net_cidr w v p))) (PInt (snd (net_cidr w v p)))].
+
 Fixpoint run_setops (n : net) (ops : list pyval) : list pyval :=
   match ops with
   | [] => []
   | o :: t => match to_setop o with
               | None => [bad]
               | Some op => let '(n', e) := apply_setop n op in
-                           PPair (of_net n') (POpt PExn e) :: run_setops n' t
+                           PList [of_net n'; POpt PExn e; attrs_of n'] :: run_setops n' t
               end
   end.
 
